@@ -25,7 +25,8 @@ ASSUMPTIONS = [
 RULE = ("prim.cksum: random byte strings (length 0..48, all lengths mod 4) x random seeds; cab.corrupt: for small cabinets "
         "(stored and MSZIP folders, 1-3 checksummed blocks, with/without data reserve) every byte of payload (sampled above 96 bytes), "
         "both bytes of the uncompressed-size field and all four bytes of the stored checksum x replacement values "
-        "{+1, ^0x80, 0x00, 0xff}; a case is non-trivial if the altered byte differs from the original; distinct by file hash")
+        "{+1, ^0x80, 0x00, 0xff}; oab.corrupt: full files and patches of two LZX DELTA blocks (LZX block kinds uncompressed/verbatim/aligned; the second block's correct CRC is 0), "
+        "every byte of each block's uncompressed-size and CRC fields and sampled payload bytes x the same values; a case is non-trivial if the altered byte differs from the original; distinct by file hash")
 
 def mszip_block(data):
     co = zlib.compressobj(9, zlib.DEFLATED, -15)
@@ -90,9 +91,42 @@ def generate(ctx):
                     c2 = cab[:pos] + bytes([v]) + cab[pos + 1:]
                     yield [f"file x.cab {c2.hex()}"] + base, dict(family="cab.corrupt", variant=what, cab=name, block=bi,
                                                                    pos=pos, value=v, expect=exp, altered=True)
+    # --- oab.corrupt
+    yield from oab_cases(ctx)
+
+def oab_cases(ctx):
+    """OAB full files and patches (incl. blocks whose correct CRC is 0): every byte of the uncompressed-size
+    and CRC fields of every LZX block, and (sampled) payload bytes, x replacement values"""
+    from checks import scenarios as S
+    rng = ctx.rng
+    plans = []
+    for patch in (False, True):
+        for kinds in (("uncompressed", "uncompressed"), ("verbatim", "uncompressed")) + ((("aligned", "verbatim"),) if ctx.tier != "quick" else ()):
+            try: plans.append(S.oab_crc_zero_case(rng, patch, kinds))
+            except Exception as e: C.log(f"C12: oab case generator failed: {e!r}")
+    for ci, case in enumerate(plans):
+        order = case["meta"]["order"]; patch = case["meta"]["patch"]
+        f = case["files"][order[0]]
+        exp = [digest(case["members"][0]["data"])]
+        op = f"decompressinc i0 {order[0]} {order[1]} out" if patch else f"decompress i0 {order[0]} out"
+        base = ([f"file {order[1]} {case['files'][order[1]].hex() or '-'}"] if patch else []) + ["new oab", op, "destroy i0"]
+        yield [f"file {order[0]} {f.hex()}"] + base, dict(family="oab.corrupt", variant="original", cab=f"oab{ci}", expect=exp, altered=False)
+        for bi, (hoff, poff, plen) in enumerate(case["meta"]["layout"]):
+            positions = [("usize", hoff + (4 if patch else 8) + k) for k in range(4)] + [("cksum", hoff + 12 + k) for k in range(4)]
+            pp = list(range(plen))
+            if ctx.tier == "quick" and plen > 48: pp = sorted(set(pp[:12] + pp[-24:] + rng.sample(pp, 12)))
+            positions += [("payload", poff + k) for k in pp]
+            for (what, pos) in positions:
+                o = f[pos]
+                vals = {(o + 1) & 255, o ^ 0x80, 0, 255} - {o}
+                if ctx.tier == "quick" and what == "payload": vals = set(rng.sample(sorted(vals), min(2, len(vals))))
+                for v in sorted(vals):
+                    f2 = f[:pos] + bytes([v]) + f[pos + 1:]
+                    yield [f"file {order[0]} {f2.hex()}"] + base, dict(family="oab.corrupt", variant=what, cab=f"oab{ci}", block=bi, pos=pos, value=v,
+                                                                         crc_zero=case["meta"]["crcs"][bi] == 0, expect=exp, altered=True)
 
 def extracts(blocks):
-    return [C.kv(b[0]) for b in (blocks or []) if b and b[0].startswith("extract ")]
+    return [C.kv(b[0]) for b in (blocks or []) if b and b[0].startswith(("extract ", "decompress ", "decompressinc "))]
 
 def judge(ctx, meta, impl, model):
     fs = []
@@ -119,7 +153,7 @@ def judge(ctx, meta, impl, model):
                 fs.append(Finding("mismatch", f"unaltered cabinet: member {k} fails with st={e.get('st')} (generator or implementation broken)"))
     if model is not None:
         me = extracts(model)
-        if any(b[0].endswith("unsupported") for b in model if b[0].startswith("extract")):
+        if any(b[0].endswith("unsupported") for b in model if b[0].startswith(("extract", "decompress"))):
             return fs
         pi = [(e.get("st"), e.get("out")) for e in ie]
         pm = [(e.get("st"), e.get("out")) for e in me]
